@@ -175,6 +175,7 @@ func init() {
 			{"setter-scope", "convenience setters touch only their fields", ruleSetterScope},
 			{"err-atomic", "validate before write", ruleErrAtomicPage},
 			{"round-nearest", "mm→twips on the write path rounds to nearest (no truncating conversion)", ruleRoundNearest},
+			{"xml-object-total", "pgSz/pgMar/docGrid are rebuilt (or fully reassigned) by every SetPageSettings", ruleXMLObjectTotal},
 		},
 		Assumptions: commonAssumptions,
 	}
